@@ -4,6 +4,7 @@ import (
 	"context"
 	"errors"
 	"fmt"
+	"math/big"
 	"reflect"
 	"strconv"
 	"strings"
@@ -92,6 +93,8 @@ type argv struct {
 	str   string
 	elems []argv
 	expr  string
+	// goTyped: a Go slice of a concrete element type from the data ([]int, []string)
+	goTyped bool
 }
 
 var c11Map = map[string]interface{}{"k": 3.0, "j": -2.0}
@@ -114,6 +117,34 @@ var argKinds = []argv{
 	{kind: "num", num: "0.000000000000000000000000000000002", expr: "(2e-33)"},
 	{kind: "arr", expr: "rc.nilsl"},  // a nil Go slice reached through a member: an empty array
 	{kind: "arr", expr: "rc.nilany"}, // the same for []interface{}(nil)
+}
+
+// c11BaseKinds: the argument kinds above are used in lists of every length; the ones appended by init
+// below (range limits of the integer kinds, non-finite numbers, a float32 midpoint, Go-typed slices,
+// a typed nil pointer read by name) only in lists of at most two arguments.
+var c11BaseKinds = len(argKinds)
+
+func init() {
+	argKinds = append(argKinds,
+		argv{kind: "num", num: "127.9", expr: "(127.9)"},
+		argv{kind: "num", num: "128", expr: "(128)"},
+		argv{kind: "num", num: "-128.5", expr: "(-128.5)"},
+		argv{kind: "num", num: "-129", expr: "(-129)"},
+		argv{kind: "num", num: "300", expr: "(300)"},
+		argv{kind: "num", num: "-40000", expr: "(-40000)"},
+		argv{kind: "num", num: "3000000000", expr: "(3000000000)"},
+		argv{kind: "num", num: "9223372036854775807.5", expr: "(9223372036854775807.5)"},
+		argv{kind: "num", num: "9223372036854775808", expr: "(9223372036854775808)"},
+		argv{kind: "num", num: "-9223372036854775809", expr: "(-9223372036854775809)"},
+		argv{kind: "num", num: "1e30", expr: "(1e30)"},
+		argv{kind: "nonfinite", expr: "(1/0)"},
+		argv{kind: "nonfinite", expr: "(0/0)"},
+		argv{kind: "num", num: "1.0000000596046447753906251", expr: "(1.0000000596046447753906251)"}, // just above the midpoint of two float32 values
+		argv{kind: "num", num: "16777217", expr: "(16777217)"},
+		argv{kind: "arr", goTyped: true, expr: "rc.ints", elems: []argv{{kind: "num", num: "65"}, {kind: "num", num: "66"}}},
+		argv{kind: "arr", goTyped: true, expr: "rc.strs", elems: []argv{{kind: "str", str: "p"}, {kind: "str", str: "q"}}},
+		argv{kind: "null", expr: "np"}, // a typed nil pointer read by name
+	)
 }
 
 type c11Rec struct {
@@ -144,6 +175,15 @@ func nearestF64(num string) float64 {
 // row gives the expectation for one argument converted to one parameter kind.
 func row(pk int, a argv) (int, interface{}) {
 	comp := a.kind == "arr" || a.kind == "map" || a.kind == "time"
+	if a.kind == "nonfinite" && !(pk >= pkInt && pk <= pkF64) {
+		if pk == pkBool || pk == pkString || pk == pkIface || pk == pkDec {
+			return vU, nil
+		}
+		return vF, nil
+	}
+	if a.goTyped && (pk == pkIface || pk == pkSliceIface) {
+		return vU, nil // whether a Go-typed slice is handed on as it is or element by element is not fixed
+	}
 	switch pk {
 	case pkString:
 		switch a.kind {
@@ -169,9 +209,20 @@ func row(pk int, a argv) (int, interface{}) {
 		switch a.kind {
 		case "null", "bool":
 			return vU, nil
+		case "nonfinite":
+			if pk == pkF32 || pk == pkF64 {
+				return vU, nil
+			}
+			return vF, nil // infinity and NaN have no integer value: the argument cannot be converted
 		case "num":
-			if t := truncInt(a.num); (pk == pkInt8 && (t > 127 || t < -128)) || (pk == pkInt16 && (t > 32767 || t < -32768)) || (pk == pkInt32 && (t > 2147483647 || t < -2147483648)) {
-				return vU, nil // does not fit the parameter type: not fixed by the statement
+			if pk != pkF32 && pk != pkF64 {
+				d, _ := ref.ParseDec(a.num)
+				t := ratTrunc(d.Rat())
+				bits := map[int]uint{pkInt: 63, pkInt8: 7, pkInt16: 15, pkInt32: 31, pkInt64: 63}[pk]
+				lim := new(big.Int).Lsh(big.NewInt(1), bits)
+				if t.Cmp(lim) >= 0 || t.Cmp(new(big.Int).Neg(lim)) < 0 {
+					return vF, nil // the truncated value does not fit the parameter type: the argument cannot be converted
+				}
 			}
 			switch pk {
 			case pkInt:
@@ -185,7 +236,8 @@ func row(pk int, a argv) (int, interface{}) {
 			case pkInt64:
 				return vD, truncInt(a.num)
 			case pkF32:
-				return vD, float32(nearestF64(a.num))
+				f, _ := strconv.ParseFloat(a.num, 32) // the nearest float32 to the decimal itself
+				return vD, float32(f)
 			default:
 				return vD, nearestF64(a.num)
 			}
@@ -477,6 +529,8 @@ func judgeCall(c CallCase) *eng.Fail {
 			verdict = vU
 		} else if last := args[len(args)-1]; last.kind != "arr" {
 			verdict = vF // spread of a non-array
+		} else if last.goTyped {
+			verdict = vU // spreading a Go-typed slice from the data: element conversion is not fixed by the statement
 		} else if len(args)-1 != nf {
 			verdict = vF // the explicit arguments must fill exactly the fixed parameters; the array only feeds the tail
 		} else {
@@ -494,7 +548,7 @@ func judgeCall(c CallCase) *eng.Fail {
 	}
 	invocations = invocations[:0]
 	data := map[string]interface{}{"host": makeHost(c.Fixed, c.Tail, c.Ctx, c.Ret), "mp": c11Map, "tm": c11Time,
-		"rc": map[string]interface{}{"nilsl": []string(nil), "nilany": []interface{}(nil)}}
+		"rc": map[string]interface{}{"nilsl": []string(nil), "nilany": []interface{}(nil), "ints": []int{65, 66}, "strs": []string{"p", "q"}}, "np": (*int)(nil)}
 	r := formula.NewRunner()
 	r.SetThis(data)
 	o := safeResolve(r, c11Ctx, p.Expression)
@@ -649,7 +703,10 @@ func judgeErrSites(c ErrCase) *eng.Fail {
 		nd := map[string]interface{}{
 			"pair": func(a, b string) (string, error) { seen = append(seen, "pair("+a+","+b+")"); return a + b, nil },
 			"wrap": func(a string) (string, error) { seen = append(seen, "wrap("+a+")"); return "<" + a + ">", nil },
-			"tri":  func(a, b, c interface{}) (string, error) { seen = append(seen, "tri("+show(a)+","+show(b)+","+show(c)+")"); return "t", nil },
+			"tri": func(a, b, c interface{}) (string, error) {
+				seen = append(seen, "tri("+show(a)+","+show(b)+","+show(c)+")")
+				return "t", nil
+			},
 		}
 		r := formula.NewRunner()
 		r.SetThis(nd)
@@ -664,10 +721,10 @@ func judgeErrSites(c ErrCase) *eng.Fail {
 				return eng.F("C11/eval", "%s: %v %s", src, o.err, o.panicMsg)
 			}
 			want := map[string]string{
-				"pair('x', wrap('y'))":                      "wrap(y) pair(x,<y>)",
-				"upper('q') + pair('x', wrap('y'))":         "wrap(y) pair(x,<y>)",
-				"tri(1, pair('a', wrap('b')), wrap('c'))":   "wrap(b) pair(a,<b>) wrap(c) tri(num:1,str:\"a<b>\",str:\"<c>\")",
-				"pair(wrap('m'), wrap('n'))":                "wrap(m) wrap(n) pair(<m>,<n>)",
+				"pair('x', wrap('y'))":                    "wrap(y) pair(x,<y>)",
+				"upper('q') + pair('x', wrap('y'))":       "wrap(y) pair(x,<y>)",
+				"tri(1, pair('a', wrap('b')), wrap('c'))": "wrap(b) pair(a,<b>) wrap(c) tri(num:1,str:\"a<b>\",str:\"<c>\")",
+				"pair(wrap('m'), wrap('n'))":              "wrap(m) wrap(n) pair(<m>,<n>)",
 			}[src]
 			if got := strings.Join(seen, " "); got != want {
 				return eng.F("C11/nested-arguments", "evaluation %d on one runner, %s: host calls [%s], expected [%s]", round+1, src, got, want)
@@ -739,7 +796,11 @@ func runC11(w *eng.W) {
 						maxArgs = 3
 					}
 					for l := 0; l <= maxArgs; l++ {
-						seqs(na, l, func(ai []int) {
+						alpha := na
+						if l > 2 {
+							alpha = c11BaseKinds
+						}
+						seqs(alpha, l, func(ai []int) {
 							for _, spread := range []bool{false, true} {
 								c := CallCase{Fixed: fixed, Tail: tail, Ctx: withCtx, Ret: ret, Args: append([]int(nil), ai...), Spread: spread}
 								w.State(1)
